@@ -173,8 +173,9 @@ def items(tier, rng):
         out.append({"name": "%s_3dup" % func, "harness": "h_scc", "params": {"func": func, "n": 3, "pot": pot3, "order": [1, 0, 2], "dup": True}})
         # neighbours outside the node set: node 3 is not in the node list but reachable and has arcs back
         pot_out = [(u, v) for u in range(3) for v in range(3) if u != v] + [(0, 3), (2, 3), (3, 1), (3, 3)]
-        out.append({"name": "%s_3out" % func, "harness": "h_scc", "split": 6,
-                    "params": {"func": func, "n": 3, "pot": pot_out, "order": [0, 1, 2], "outside": 1}})
+        for rev in (False, True):  # the outside neighbour listed after / before the real ones
+            out.append({"name": "%s_3out" % func, "harness": "h_scc", "split": 6,
+                        "params": {"func": func, "n": 3, "pot": pot_out, "order": [0, 1, 2] if not rev else [1, 0, 2], "outside": 1, "rev": rev}})
     for func in ("scc", "topo"):
         out.append({"name": "%s_edges3" % func, "harness": "h_scc",
                     "params": {"func": func, "n": 3, "pot": pot3, "order": [0, 1, 2], "edges_variant": True}})
